@@ -334,6 +334,11 @@ def _record(spec, dumps, ctx: Ctx):
 def check_batch(case, ctx: Ctx):
     pkgs = case["pkgs"]
     children = case["children"]
+    if len(pkgs) > 1 and len({json.dumps({k: v for k, v in p.items() if k != "slot"}, sort_keys=True) for p in pkgs}) == 1:
+        # the all-minimal example with which every Hypothesis run starts: N copies of the same trivial package
+        ctx.rec.evaluations -= 1
+        ctx.rec.count("degenerate_batches_skipped")
+        return
     outs = run_children(case, ctx)
     ctx.rec.evaluations += max(0, len(pkgs) - 1)
     for c in children:
@@ -450,10 +455,11 @@ class _Quiet(object):
 
 # ------------------------------------------------------------------------------------------------------------
 def shard(ctx: Ctx):
-    npk = ctx.pick(10, 16)
+    npk = ctx.pick(16, 24)
     k = ctx.pick(3, 4)
-    total = ctx.n(8 * 4, 16 * 40)          # batches in total
-    explore(ctx, "batch", G.batch(npk, k), check_batch, total, batch=max(1, min(total, 4)), shrink=False,
+    runs = ctx.pick(1, 4)                   # Hypothesis runs per shard (the time budget is checked between runs)
+    per_run = (ctx.n(8 * 4, 16 * 40) + runs - 1) // runs + 1     # +1: the first example of a run is degenerate
+    explore(ctx, "batch", G.batch(npk, k), check_batch, per_run * runs, batch=per_run, shrink=False,
             minimize=minimize)
 
 
